@@ -122,9 +122,20 @@ def build(rng, strings, k):
     n = rng.choice([0, 1, 2, 3, 5, 9, 14])
     stop = rng.choice([None, None, 'size', 'oversized', 'cut'])
     stop_at = rng.randrange(n) if n and stop else None
+    good = []
     for j in range(n):
+        if good and rng.random() < .4 and not (j == stop_at and stop != 'cut'):
+            # an earlier entry once more: the same hash and data - as it was, or under the other tag
+            # (a binary entry and a trace entry with equal content are shown differently)
+            b = list(rng.choice(good))
+            if rng.random() < .7:
+                b[6:8] = [0x46, 0x44] if b[6:8] == [0x46, 0x54] else [0x46, 0x54]
+            body += b
+            continue
         e = entry(rng, strings, kind=stop if j == stop_at and stop != 'cut' else None)
         body += e['bytes']
+        if e['bad'] is None:
+            good.append(e['bytes'])
     total = 32 + len(body)
     decl = rng.choice([total, total, total + 64, max(32, total - rng.randrange(1, 40)), 32, 0, 0xFFFFFFFF, 33])
     hdr = [rng.choice([2, 1, 255]), 0x20, 1, 0x42] + compb + [0, 0, 0, 0] + u32(decl) + u32(rng.choice([0, 3, 254, 4294967295])) + u32(rng.randrange(1 << 32))
